@@ -464,20 +464,38 @@ def run(prog, rep):
     _nfail = [0]
 
     def _as(st, b, i, stmt):
-        facts, parsed = st
+        facts, parsed, empty = st
         if any(c.get("callee") in _PARSERS for c in calls(stmt)):
             parsed = True
         if stmt["k"] == "ret" and stmt.get("e") is not None and guards.eval_const(stmt["e"], facts) == 0:
             _nfail[0] += 1
             oom = any(fk.startswith("p_malloc") and fop == "==" and fv == 0 for (fk, fop, fv) in facts)
-            if not parsed and not oom and guards.lookup(facts, _ap) != 0 and guards.known_nonzero({"k": "ref", "name": _ap, "decl": "param"}, facts):
+            if not parsed and not oom and not empty and guards.lookup(facts, _ap) != 0 and guards.known_nonzero({"k": "ref", "name": _ap, "decl": "param"}, facts):
                 _early.append(line(stmt))
-        return [(guards.transfer(facts, stmt), parsed)]
+        return [(guards.transfer(facts, stmt), parsed, empty)]
 
     def _ae(st, b, to, on):
         f2 = guards.edge_assume(st[0], b, on)
-        return None if f2 is None else (f2, st[1])
-    Flow(_an, [(guards.EMPTY, False)], _as, _ae).run()
+        if f2 is None:
+            return None
+        # "" is no numeric address on any platform: a path that has seen the first character to be NUL may leave at once (the fact is
+        # remembered here because the next call statement forgets everything known about memory)
+        empty = st[2] or guards.lookup(f2, "*(%s)" % _ap) == 0 or guards.lookup(f2, "%s[0]" % _ap) == 0
+        if not empty and on == "true" and b.cond is not None:
+            # `address == NULL || *address == 0` taken as true with the first test already known false: the second one holds
+            from plint.ir import strip_expect
+            c_ = strip_casts(strip_expect(b.cond))
+            while c_ is not None and c_["k"] == "un" and c_.get("op") == "!" and strip_casts(strip_expect(c_["e"])) is not None \
+                    and strip_casts(strip_expect(c_["e"]))["k"] == "un" and strip_casts(strip_expect(c_["e"])).get("op") == "!":
+                c_ = strip_casts(strip_expect(strip_casts(strip_expect(c_["e"]))["e"]))          # !!x
+            if c_ is not None and c_["k"] == "bin" and c_["op"] == "||":
+                for (known, other) in ((c_["l"], c_["r"]), (c_["r"], c_["l"])):
+                    o_ = strip_casts(other)
+                    if guards.eval_const(known, st[0]) == 0 and o_ is not None and o_["k"] == "bin" and o_["op"] == "==" and cv(o_["r"]) == 0 \
+                            and guards.key(o_["l"]) in ("*(%s)" % _ap, "%s[0]" % _ap):
+                        empty = True
+        return (f2, st[1], empty)
+    Flow(_an, [(guards.EMPTY, False, False)], _as, _ae).run()
     if _nfail[0] < 2:
         raise AnalysisBroken("p_socket_address_new: fewer than two failure returns found (%d)" % _nfail[0])
     rep.ob("C17.4", _an, "text:platform-decides", not _early,
@@ -504,6 +522,9 @@ def run(prog, rep):
 RENAME_LOCALS = ['src/psocketaddress.c']
 
 SELFTEST = [
+    dict(id="text-empty-string-early-return-neutral", file="src/psocketaddress.c", expect=None,
+         old="\tif (P_UNLIKELY (address == NULL))\n\t\treturn NULL;\n\n#if (defined (P_OS_WIN) || defined (PLIBSYS_HAS_GETADDRINFO)) && defined (AF_INET6)",
+         new="\tif (P_UNLIKELY (address == NULL || *address == '\\0'))\n\t\treturn NULL;\n\n#if (defined (P_OS_WIN) || defined (PLIBSYS_HAS_GETADDRINFO)) && defined (AF_INET6)"),
     dict(id="text-length-prefilter", file="src/psocketaddress.c", expect="C17.4",
          old="\tif (P_UNLIKELY (address == NULL))\n\t\treturn NULL;\n\n#if (defined (P_OS_WIN) || defined (PLIBSYS_HAS_GETADDRINFO)) && defined (AF_INET6)",
          new="\tif (P_UNLIKELY (address == NULL || strlen (address) >= INET6_ADDRSTRLEN))\n\t\treturn NULL;\n\n#if (defined (P_OS_WIN) || defined (PLIBSYS_HAS_GETADDRINFO)) && defined (AF_INET6)"),
